@@ -59,6 +59,21 @@ Lemma html_list : forall items st cls, st <> SCloErr ->
        end.
 Proof. intros. destruct st; try reflexivity. congruence. Qed.
 
+Lemma cell_plain_eq : forall tf row col y cls, cell_plain (tf_lookup tf row col) = true ->
+  cellf tf row col y cls = to_td y cls.
+Proof.
+  intros tf row col y cls H. unfold cell_with. destruct (tf_lookup tf row col) as [f|]; [|reflexivity].
+  destruct f; try discriminate. reflexivity.
+Qed.
+
+Lemma cell_fmt_eq : forall tf row col y cls f, tf_lookup tf row col = Some f -> f <> SCloId ->
+  cellf tf row col y cls =
+  let '(a, cls1) := style_attr inline f cls in
+  bind (html y SNone cls1) (fun o cls2 => Some (OOpen s_td :: a ++ o ++ [OClose], cls2)).
+Proof.
+  intros tf row col y cls f H Hn. unfold cell_with. rewrite H. destruct f; try reflexivity. congruence.
+Qed.
+
 (* ====================================================================== *)
 (*  errors: a failing element inside the cut-offs makes the whole rendering fail   *)
 (* ====================================================================== *)
@@ -137,7 +152,7 @@ Scheme fails_mut := Induction for fails Sort Prop
 Combined Scheme fails_both from fails_mut, fails_td_mut.
 
 Lemma sty_dec : forall st : sty, st = SCloErr \/ st <> SCloErr.
-Proof. destruct st; [right|right|right|left|right]; congruence. Qed.
+Proof. destruct st; [right|right|right|left|right|right]; congruence. Qed.
 
 Theorem fails_err :
   (forall v st, fails maxl v st -> forall cls, html v st cls = None) /\
@@ -169,14 +184,14 @@ Proof.
     destruct (style_attr inline st cls) as [a cls0]. rewrite Hf.
     rewrite (table_rows_err (cellf (tf_of st)) _ r 1 cls0 x Hr); [reflexivity|lia|].
     intro c. unfold row_cells. assert (H1 : (1 <=? maxl) = true) by (apply N.leb_le; lia).
-    destruct x; try discriminate; rewrite H1; unfold cell_with; rewrite Hlk; apply IH.
-  - intros items first r x f st Hp H0 Hf Hr Hlt Hx Hlk _ IH cls. destruct (sty_dec st) as [->|Hs]; [apply html_clo|].
+    destruct x; try discriminate; rewrite H1; rewrite (cell_plain_eq _ _ _ _ _ Hlk); apply IH.
+  - intros items first r x f st Hp H0 Hf Hr Hlt Hx Hlk Hnf _ IH cls. destruct (sty_dec st) as [->|Hs]; [apply html_clo|].
     rewrite html_list by exact Hs. rewrite Hp.
     destruct items as [|x0 items']; [discriminate|]. cbn [nth_error] in H0. inversion H0; subst x0.
     destruct (style_attr inline st cls) as [a cls0]. rewrite Hf.
     rewrite (table_rows_err (cellf (tf_of st)) _ r 1 cls0 x Hr); [reflexivity|lia|].
     intro c. unfold row_cells. assert (H1 : (1 <=? maxl) = true) by (apply N.leb_le; lia).
-    destruct x; try discriminate; rewrite H1; unfold cell_with; rewrite Hlk;
+    destruct x; try discriminate; rewrite H1; rewrite (cell_fmt_eq _ _ _ _ _ f Hlk Hnf);
       destruct (style_attr inline f c) as [a1 c1]; rewrite IH; reflexivity.
   - intros items first r cols c y st Hp H0 Hf Hr Hlt Hc Hclt Hlk _ IH cls.
     destruct (sty_dec st) as [->|Hs]; [apply html_clo|].
@@ -186,8 +201,8 @@ Proof.
     rewrite (table_rows_err (cellf (tf_of st)) _ r 1 cls0 (HL cols) Hr); [reflexivity|lia|].
     intro c0. unfold row_cells.
     apply (table_cells_err (cellf (tf_of st)) (N.of_nat r + 1) cols c 1 c0 y Hc); [lia|].
-    intro c1. unfold cell_with. rewrite Hlk. apply IH.
-  - intros items first r cols c y f st Hp H0 Hf Hr Hlt Hc Hclt Hlk _ IH cls.
+    intro c1. rewrite (cell_plain_eq _ _ _ _ _ Hlk). apply IH.
+  - intros items first r cols c y f st Hp H0 Hf Hr Hlt Hc Hclt Hlk Hnf _ IH cls.
     destruct (sty_dec st) as [->|Hs]; [apply html_clo|].
     rewrite html_list by exact Hs. rewrite Hp.
     destruct items as [|x0 items']; [discriminate|]. cbn [nth_error] in H0. inversion H0; subst x0.
@@ -195,7 +210,7 @@ Proof.
     rewrite (table_rows_err (cellf (tf_of st)) _ r 1 cls0 (HL cols) Hr); [reflexivity|lia|].
     intro c0. unfold row_cells.
     apply (table_cells_err (cellf (tf_of st)) (N.of_nat r + 1) cols c 1 c0 y Hc); [lia|].
-    intro c1. unfold cell_with. rewrite Hlk. destruct (style_attr inline f c1) as [a1 c2]. rewrite IH. reflexivity.
+    intro c1. rewrite (cell_fmt_eq _ _ _ _ _ f Hlk Hnf). destruct (style_attr inline f c1) as [a1 c2]. rewrite IH. reflexivity.
   - intros cs f inner Hl _ IH cls. unfold to_td_with. rewrite Hl. cbn [negb andb]. rewrite IH. reflexivity.
   - intros cell cs f inner Hc _ IH cls. unfold to_td_with. rewrite Hc.
     destruct (style_attr inline f cls) as [a cls1]. rewrite IH. reflexivity.
@@ -377,7 +392,7 @@ Qed.
 
 Lemma style_str_legal : forall st s, legal_sty st = true -> style_str st = Some s -> legal s = true.
 Proof.
-  intros st s Hl Hs. destruct st as [|x|l| |l tf]; cbn [style_str] in Hs; try discriminate.
+  intros st s Hl Hs. destruct st as [|x|l| | |l tf]; cbn [style_str] in Hs; try discriminate.
   - inversion Hs; subst. exact Hl.
   - apply (css_legal l s Hl Hs).
   - cbn [legal_sty] in Hl. apply andb_true_iff in Hl. destruct Hl as [Hl _]. apply (css_legal l s Hl Hs).
@@ -709,8 +724,11 @@ Lemma cell_seg : forall tf y, forallb (fun kv => legal_sty (snd kv)) tf = true -
   forall strict row col c, legal_h y = true -> (strict = true -> pfree y = true) ->
   seg (okels strict) (cellf tf row col y c).
 Proof.
-  intros tf y Ltf HP HQ strict row col c Ly Hs. unfold cell_with.
-  destruct (tf_lookup tf row col) as [f|] eqn:E; [|apply HQ; assumption].
+  intros tf y Ltf HP HQ strict row col c Ly Hs.
+  destruct (cell_plain (tf_lookup tf row col)) eqn:Ecp; [rewrite (cell_plain_eq _ _ _ _ _ Ecp); apply HQ; assumption|].
+  destruct (tf_lookup tf row col) as [f|] eqn:E; [|discriminate].
+  assert (Hnf : f <> SCloId) by (intro; subst; discriminate).
+  rewrite (cell_fmt_eq _ _ _ _ _ f E Hnf).
   destruct (tf_lookup_in tf row col f E) as [k Hin].
   rewrite forallb_forall in Ltf. pose proof (Ltf _ Hin) as Lf. cbn [snd] in Lf.
   destruct (style_attr_spec f c Lf) as [a [Ea [La Sa]]].
